@@ -190,6 +190,30 @@ func GenPlan(prop string, seed int64, tier string, guards map[string]bool) *Plan
 	}
 	// drawn last, from its own stream: how the handler sees the end of a body
 	p.Config.LateEOF = rand.New(rand.NewSource(seed^0x6c617465)).Intn(4) == 0
+	// likewise: requests that carry x-amz-date, and a clock that steps forwards
+	// and backwards between operations (NTP corrections, a VM resumed, a test
+	// that sets the time source): nothing a property promises depends on the
+	// clock being monotonic
+	if prop != "C09" {
+		tr := rand.New(rand.NewSource(seed ^ 0x74696d65))
+		// (not in C08: the server counts every x-amz-* header against the
+		// metadata size limit, whose exact boundary C08 probes)
+		p.Config.AmzDate = tr.Intn(5) == 0 && prop != "C08"
+		if tr.Intn(4) == 0 && p.Config.Mode != "lin" {
+			for ci := range p.Clients {
+				for oi := range p.Clients[ci] {
+					if tr.Intn(12) == 0 {
+						d := 1 + tr.Intn(7200)
+						if tr.Intn(2) == 0 {
+							d = -d
+						}
+						op := &p.Clients[ci][oi]
+						op.Faults = append(append([]Fault{}, op.Faults...), Fault{Kind: "clock", At: d})
+					}
+				}
+			}
+		}
+	}
 	// likewise: bucket-in-the-Host-header addressing next to path style
 	if prop != "C09" {
 		share := 6
